@@ -199,6 +199,25 @@ def direct(seed, tier, model, stats):
         except Exception as e:  # noqa: BLE001
             fails.append({"what": f"applyCustomTransferFunction raised {type(e).__name__} for the axis {fr}, {want.__name__} expected",
                           "call": "applyCustomTransferFunction"})
+    # Nyquist is SR/2 also when that is not a whole number
+    for SRx, fr in ((5, [0, 1, 2.4975]), (5, [0, 1, 2]), (1, [0, 0.25, 0.4999]), (2.5, [0, 1, 1.2]), (7, [0, 3, 3.4])):
+        tested["rejections"] += 1
+        try:
+            ripasso.applyCustomTransferFunction(np.ones(6), SRx, np.array(fr, float), np.ones(len(fr)))
+            fails.append({"what": f"applyCustomTransferFunction accepted the frequency axis {fr} at SR={SRx}, which stops short of Nyquist "
+                                  f"{SRx / 2} (MissingFrequenciesError expected)", "call": "applyCustomTransferFunction"})
+        except ripasso.MissingFrequenciesError:
+            pass
+        except Exception as e:  # noqa: BLE001
+            fails.append({"what": f"applyCustomTransferFunction raised {type(e).__name__} for the axis {fr} at SR={SRx}, MissingFrequenciesError expected",
+                          "call": "applyCustomTransferFunction"})
+    for SRx, fr in ((5, [0, 1, 2.5]), (1, [0, 0.5]), (2.5, [0, 1.25]), (7, [0, 2, 3.5, 9])):
+        tested["rejections"] += 1
+        try:
+            ripasso.applyCustomTransferFunction(np.ones(6), SRx, np.array(fr, float), np.ones(len(fr)))
+        except Exception as e:  # noqa: BLE001
+            fails.append({"what": f"applyCustomTransferFunction rejected the valid axis {fr} at SR={SRx}: {type(e).__name__}",
+                          "call": "applyCustomTransferFunction"})
     for fr in ([0, 1, 2, 5], [0.5, 2, 5], [0, 5], [0, 2.5, 7]):
         tested["rejections"] += 1
         try:
